@@ -50,6 +50,9 @@ type verifOp struct {
 	Gi   int     `json:"gi"`
 	TTL  int     `json:"ttl"`
 	Via  string  `json:"via"` // how the query callbacks read the database: "" | conn | stmt | tx | txstmt
+	// exec: what the callback returns beside a nil error: "" nil | "one" a result with 1 row affected | "zero" a
+	// result with 0 rows affected (the last statement of several) | "err" a result whose RowsAffected fails
+	Res string `json:"res"`
 }
 
 type verifCase struct {
@@ -57,6 +60,11 @@ type verifCase struct {
 	Expire   int       `json:"expire"`
 	NfExpire int       `json:"nfexpire"`
 	Ops      []verifOp `json:"ops"`
+	// how the CachedConn is built: "" NewConnWithCache(cache.NewNode(...)), "nodeconn" NewNodeConn(db, rds, opts...),
+	// "conn" NewConn(db, cache.Config of one node, opts...); and which options are passed: "both" (default) | "e" |
+	// "n" | "none" -- Expire / NfExpire are the values handed to WithExpire / WithNotFoundExpire and may be <= 0
+	Ctor string `json:"ctor"`
+	Opts string `json:"opts"`
 	// level conc: one call per thread, executed under a forced schedule
 	Threads []verifThreadOp `json:"threads"`
 	Sched   [][]any         `json:"sched"` // ["t",i] start thread i | ["o",g] open gate g | ["c",i] cancel ctx of thread i
@@ -272,11 +280,25 @@ func verifRunCase(c verifCase) (any, bool) {
 	verifSrv.FlushAll()
 	verifSetFaults(false, false, false)
 	src := &verifSource{}
-	node := cache.NewNode(redis.New(verifSrv.Addr()), singleFlights, stats, sql.ErrNoRows,
-		cache.WithExpire(time.Duration(c.Expire)*time.Second), cache.WithNotFoundExpire(time.Duration(c.NfExpire)*time.Second))
+	var opts []cache.Option
+	if c.Opts == "" || c.Opts == "both" || c.Opts == "e" {
+		opts = append(opts, cache.WithExpire(time.Duration(c.Expire)*time.Second))
+	}
+	if c.Opts == "" || c.Opts == "both" || c.Opts == "n" {
+		opts = append(opts, cache.WithNotFoundExpire(time.Duration(c.NfExpire)*time.Second))
+	}
 	vsql := newVerifSQL()
 	defer vsql.db.Close()
-	cc := NewConnWithCache(vsql.conn, verifScripted(node, src))
+	var cc CachedConn
+	switch c.Ctor {
+	case "nodeconn":
+		cc = NewNodeConn(vsql.conn, redis.New(verifSrv.Addr()), opts...)
+	case "conn":
+		cc = NewConn(vsql.conn, cache.Config{{Config: redis.Config{Host: verifSrv.Addr(), Type: redis.NodeType}, Weight: 100}}, opts...)
+	default:
+		cc = NewConnWithCache(vsql.conn, cache.NewNode(redis.New(verifSrv.Addr()), singleFlights, stats, sql.ErrNoRows, opts...))
+	}
+	cc.cache = verifScripted(cc.cache, src) // the node as built, with the jitter source scripted
 
 	db := map[int]verifRow{}
 	dbq := 0
@@ -361,6 +383,14 @@ func verifRunCase(c verifCase) (any, bool) {
 					delete(db, int(op.W[1].(float64)))
 				default:
 					return nil, errors.New("verif exec failure")
+				}
+				switch op.Res {
+				case "one":
+					return sqlmock.NewResult(1, 1), nil
+				case "zero":
+					return sqlmock.NewResult(0, 0), nil
+				case "err":
+					return sqlmock.NewErrorResult(errors.New("verif: rows affected unknown")), nil
 				}
 				return nil, nil
 			}, ks...)
